@@ -177,6 +177,9 @@ func (r *grammarOptimizer) optimize(expr0 Expression) Visitor {
 		expr.Expr = r.optimizeRule(expr.Expr)
 	case *OneOrMoreExpr:
 		expr.Expr = r.optimizeRule(expr.Expr)
+	case *RecoveryExpr:
+		expr.Expr = r.optimizeRule(expr.Expr)
+		expr.RecoverExpr = r.optimizeRule(expr.RecoverExpr)
 	case *Rule:
 		r.rule = expr.Name.Val
 		expr.Expr = r.optimizeRule(expr.Expr)
